@@ -19,12 +19,18 @@ THEOREMS = [
     'CC.C01_complete', 'CC.C01_unique', 'CC.C01_matrix_unique', 'CC.C01_reported_is_the_solution',
     'CC.C01_solvable', 'CC.C01_square', 'CC.kcl_identity', 'CC.matVec_iff_rows', 'CC.exampleReport_solves',
 ]
-LEAN_MODULE_EXTRA = ['CC.Proofs.Solvable']
+THEOREMS += ['CC.C01_gen_values', 'CC.C01_gen_predicates', 'CC.C01_gen_isfinite', 'CC.C01_gen_finite', 'CC.C01_gen_factories',
+    'CC.C01_gen_factory_kinds', 'CC.C01_gen_node_labels', 'CC.C01_gen_check', 'CC.C01_gen_getitem', 'CC.C01_gen_branch_filters',
+    'CC.C01_gen_nodes', 'CC.C01_gen_source_ids', 'CC.C01_gen_Yentry', 'CC.C01_gen_dir', 'CC.C01_gen_Qentry', 'CC.C01_gen_rhsNode',
+    'CC.C01_gen_mnaA', 'CC.C01_gen_mnaB', 'CC.C01_gen_assemble', 'CC.C01_gen_potential', 'CC.C01_gen_voltage', 'CC.C01_gen_current',
+    'CC.C01_gen_power', 'CC.C01_gen_solution_vector']
+LEAN_MODULE_EXTRA = ['CC.Proofs.Solvable', 'CC.Properties.C01Gen']
 OPEN_STATEMENTS = ['det-form of non-singularity (Mathlib Matrix.det ≠ 0); proved in kernel form (C01_solvable) for the square list matrix (C01_square)']
 ASSUMPTIONS = [
     'binary64 arithmetic of numpy/LAPACK agrees with field arithmetic within 1e-9 relative on instances with cond(A) < 1e8',
     'numpy.linalg.solve is a parameter of the model: theorems hold for every vector with A·x = b; the driver checks that equation exactly',
-    'hand-written model CC/Model/{Net,MNA}.lean is tied to the code by the mna/access correspondence only',
+    'hand-written model CC/Model/{Net,MNA}.lean is tied to the code twice: by the translator (CC/Gen/Core.lean, regenerated from the AST on every run, is proved equal to the hand model by the C01_gen_* theorems) and by the mna/access correspondence',
+    'CC.Py (CC/Model/CoreBase.lean) is the reading of the Python/numpy idioms the generated core uses (inf/nan values, dict last-wins, stable sort, slices)',
 ]
 
 EXC = {'FloatingGroundNode': 'FloatingGroundNode', 'AmbiguousBranchIDs': 'AmbiguousIDs',
